@@ -169,9 +169,7 @@ class CliffordCircuit:
                 retR, retS = clifford_multiply(retR, retS, tmpR, tmpS)
             self._R = retR
             self._S = retS
-            ret = retR,retS
-        else:
-            ret = self._R, self._S
+        ret = self._R.copy(), self._S.copy() #hand out copies: the caller may edit them, the cache must stay intact
         return ret
 
     def apply_pauli_F2(self, pauli_F2):
